@@ -77,7 +77,11 @@ func structFields(c *report.Ctx, pkg, name string) []*types.Var {
 	}
 	var out []*types.Var
 	for i := 0; i < st.NumFields(); i++ {
-		out = append(out, st.Field(i))
+		f := st.Field(i)
+		if a := an.FieldName(n, f.Name()); a != f.Name() {
+			f = types.NewField(f.Pos(), f.Pkg(), a, f.Type(), f.Embedded()) // a field recognised as renamed
+		}
+		out = append(out, f)
 	}
 	return out
 }
